@@ -201,7 +201,7 @@ pub fn model_step(m: &mut RefLog, j: &mut Journal, op: &Op) -> (bool, Vec<Placed
     }
 }
 
-fn check_cache(c: &CacheObs) -> Result<(), String> {
+pub fn check_cache(c: &CacheObs) -> Result<(), String> {
     let n = c.resident.len() as u64;
     let sz: u64 = c.resident.iter().map(|x| x.1).sum();
     if c.stat_items != n || c.item_count != n {
@@ -223,7 +223,7 @@ fn check_cache(c: &CacheObs) -> Result<(), String> {
 }
 
 /// "only pinned entries may exceed the limits", evaluated right after a write
-fn check_cache_pinned(c: &CacheObs) -> Result<(), String> {
+pub fn check_cache_pinned(c: &CacheObs) -> Result<(), String> {
     let n = c.resident.len() as u64;
     let sz: u64 = c.resident.iter().map(|x| x.1).sum();
     if n > c.max_items || sz > c.capacity {
